@@ -317,6 +317,13 @@ pub fn header_parser(i: &[u8]) -> IResult<&[u8], (BlockType, Headers, bool)> {
     // "Armor Headers" ('headers')
     let (i, (typ, headers)) = armor_header(i)?;
 
+    // The armor headers are parsed line by line with `complete` parsers, which stop at a line
+    // that is not terminated yet. If the remaining input holds no full line, ask for more data
+    // instead of taking the unterminated armor header for a malformed blank line.
+    if !i.contains(&b'\n') {
+        return Err(nom::Err::Incomplete(nom::Needed::Unknown));
+    }
+
     // "A blank (zero length or containing only whitespace) line"
     let (i, _) = pair(space0, line_ending).parse(i)?;
 
